@@ -5,7 +5,7 @@
 From Coq Require Import NArith Bool List Lia.
 From RS.Gen Require Import Prelude GenConsts.
 From RS.Model Require Import Field Tables Sched Kernels Spec.
-From RS.Proofs Require Import FieldFacts.
+From RS.Proofs Require Import FieldFacts Ring FftSpec.
 Import ListNotations.
 Local Open Scope N_scope.
 
@@ -107,6 +107,46 @@ Print Assumptions C15_pmul_field.
 Theorem C15_tables_mul16 : forall m k i, mul16 m k i = mul (N.shiftl i (4 * k)) m.
 Proof. reflexivity. Qed.
 Print Assumptions C15_tables_mul16.
+
+(* ---- fft = evaluation in the LCH basis (unbounded theorem, reference engine, untruncated) ----
+   [lch k c x] is the value at x of the polynomial with coefficients c in the basis
+   X_t = prod_{j in bits t} s_j  (P = P_lo + s_(k-1) * P_hi).  For every size 2^k <= 2^16, every
+   chunk-aligned skew_delta with skew_delta + size <= 65536 and every input, output i of the
+   Naive engine's fft is the value at the point skew_delta + i.  Proof: the iterative schedule is
+   the recursive transform (passes_fft_rec), the skew table holds log s_l(p) (sweep), s_l is
+   additive and vanishes on 0..2^l-1 (Ring), field laws of the table product (Ring/FieldFacts). *)
+Theorem C15_fft : forall k q c, (k <= 16)%nat ->
+  let size := 2 ^ N.of_nat k in let sd := q * size in
+  sd + size <= 65536 -> length c = Nat.pow 2 k -> Forall (fun x => x < 65536) c ->
+  forall i, (i < Nat.pow 2 k)%nat ->
+  nth i (fft sym_ops Naive size size sd c) 0 = lch k c (sd + N.of_nat i).
+Proof. exact naive_fft_spec. Qed.
+Print Assumptions C15_fft.
+
+(* the field laws the specification rests on, for the table-based product on 16-bit symbols *)
+Theorem C15_field_laws : forall a b c, a < 65536 -> b < 65536 -> c < 65536 ->
+  fmul a b = fmul b a /\ fmul (fmul a b) c = fmul a (fmul b c) /\
+  fmul a (N.lxor b c) = N.lxor (fmul a b) (fmul a c) /\ fmul a 1 = a /\ fmul a b < 65536 /\
+  phi (fmul a b) = pmul (phi a) (phi b).
+Proof.
+  intros a b c Ha Hb Hc. repeat split.
+  - apply fmul_comm; assumption.
+  - apply fmul_assoc; assumption.
+  - apply fmul_lxor_r; assumption.
+  - apply fmul_1_r; assumption.
+  - apply fmul_lt; assumption.
+  - apply fmul_spec; assumption.
+Qed.
+Print Assumptions C15_field_laws.
+
+(* subspace polynomials: additive, vanish on 0 .. 2^j-1, value 1 at 2^j *)
+Theorem C15_subspace_polys : forall j x y, (j <= 15)%nat -> x < 65536 -> y < 65536 ->
+  s_poly j (N.lxor x y) = N.lxor (s_poly j x) (s_poly j y) /\
+  (x < 2 ^ N.of_nat j -> s_poly j x = 0) /\ s_poly j (2 ^ N.of_nat j) = 1.
+Proof.
+  intros j x y Hj Hx Hy. split; [apply s_poly_additive; assumption|]. split; [apply s_poly_vanish; assumption|apply s_poly_one; assumption].
+Qed.
+Print Assumptions C15_subspace_polys.
 
 (* fft of every engine = evaluation of the LCH-basis polynomial, eval_poly = log of the
    locator: instances (sizes up to 16, all truncations, two offsets); the general theorem is
